@@ -4,9 +4,11 @@ Decides structural necessary conditions (DESIGN.md §6 C12); does not decide equ
 documents.
 """
 import harness
-from facts import norm, lit_value, call_name, short, subnodes
+from facts import norm, lit_value, call_name, short, subnodes, peel_ty, field_reads, AnchorMissing
 from prov import Prov, has_field
-from templates import field_coverage, global_state_holders, global_state_uses
+from mirq import MirQ
+from templates import field_coverage, global_state_holders, global_state_uses, inlined
+from c13 import guards_of, strip, pattern_variants, mir_blocks     # shape helpers shared by the two modules (defined in c13.py)
 
 PR = "nitrogql_printer::"
 JSON_MOD = "nitrogql_printer::json_printer::"
@@ -97,14 +99,107 @@ KEY_SOURCE = {
     ("NonNullType", "type"): ("type::NonNullType", "type"),
 }
 
+NESTED_SITES_FLOOR = 30
 WRITER_KEY_METHODS = ("json_writer::JSONObjectWriter::value", "json_writer::JSONObjectWriter::array",
                       "json_writer::JSONObjectWriter::object")
 
 
+def json_entry(P):
+    """the function that turns a JsonPrintable node into text: by its name, or — renamed — as the only non-test function of the
+    printer crate that returns a String and calls print_json of (nearly) every impl"""
+    f = P.fn("json_printer::print_to_json_string", required=False)
+    if f is not None:
+        return f
+    impls = {g.path for g in P.trait_impls(TRAIT, "print_json")}
+    c = [g for g in P.fns.values() if g.path.startswith(PR) and "::tests::" not in g.path and g.kind == "Fn" and not g.impl_trait
+         and g.sig_output == "alloc::string::String" and len(P.callees_of(g)[0] & impls) * 2 > len(impls) > 0]
+    if len(c) != 1:
+        raise AnchorMissing("JSON printer entry (JsonPrintable -> String): %d candidates" % len(c))
+    return c[0]
+
+
 def json_scope(P):
-    entry = P.fn("json_printer::print_to_json_string")
+    entry = json_entry(P)
     reach = P.reachable([entry])
-    return sorted(p for p in reach if JSON_MOD in p)
+    mod = entry.path.rsplit("::", 1)[0] + "::"
+    return sorted(p for p in reach if mod in p or JSON_MOD in p)
+
+
+# ----------------------------------------------------------------------------------------------------------- anchors (by role)
+OPDEF = "nitrogql_ast::operation::OperationDefinition"
+FRDEF = "nitrogql_ast::operation::FragmentDefinition"
+SELSET = "nitrogql_ast::selection_set::SelectionSet"
+
+
+def _bare(t):
+    """type string without references, lifetimes' left-over blanks and generic arguments"""
+    return peel_ty(t).strip().split("<")[0]
+
+
+def _param_of(fn, adt):
+    """index of the unique parameter of `fn` that is a (reference to a) value of type `adt`, or None"""
+    hits = [i for i, t in enumerate(fn.sig_inputs) if _bare(t) == adt]
+    return hits[0] if len(hits) == 1 else None
+
+
+class Anchors:
+    pass
+
+
+_ANCHORS = {}
+
+
+def anchors(P):
+    """The runtime-document printers and the fragment-closure function, located by what they do rather than by their names:
+    * the printers are the (nearest) non-test callers of json_printer::print_to_json_string that receive one
+      `&OperationDefinition` resp. one `&FragmentDefinition` (a wrapper in between without such a parameter is climbed over);
+    * the closure function is the function of the printer crate both of them call that takes a `&SelectionSet` and returns a
+      collection of names (`&str`)."""
+    if id(P) in _ANCHORS:
+        return _ANCHORS[id(P)]
+    A = Anchors()
+    A.ptjs = json_entry(P)
+    ops, frs, others = set(), set(), set()
+    frontier, seen = [A.ptjs.path], {A.ptjs.path}
+    for _ in range(3):
+        nxt = []
+        for p in frontier:
+            for c in P.callers_of(p):
+                if c in seen or "::tests::" in c:
+                    continue
+                seen.add(c)
+                f = P.fns[c]
+                if f.kind == "Closure" or _param_of(f, OPDEF) is None and _param_of(f, FRDEF) is None:
+                    if P.callers_of(c) and not f.pub:
+                        nxt.append(c)       # a private wrapper: look at who calls it
+                    else:
+                        others.add(c)
+                elif _param_of(f, OPDEF) is not None:
+                    ops.add(c)
+                else:
+                    frs.add(c)
+        frontier = nxt
+    others |= set(frontier)
+    A.others = sorted(others)
+    if len(ops) != 1 or len(frs) != 1:
+        raise AnchorMissing("runtime printers (callers of print_to_json_string taking &OperationDefinition / &FragmentDefinition): %s / %s"
+                            % (sorted(ops), sorted(frs)))
+    A.op_rt, A.fr_rt = P.fns[ops.pop()], P.fns[frs.pop()]
+    common = P.callees_of(A.op_rt)[0] & P.callees_of(A.fr_rt)[0]
+    cl = [P.fns[c] for c in common if P.fns[c].crate == A.op_rt.crate and _param_of(P.fns[c], SELSET) is not None
+          and "str" in (P.fns[c].sig_output or "")]
+    if len(cl) != 1:
+        raise AnchorMissing("fragment closure (fn of %s called by both runtime printers, &SelectionSet -> names): %s" % (A.op_rt.crate, [c.path for c in cl]))
+    A.closure = cl[0]
+    A.closure_T = inlined(P, A.closure)
+    # the traversal = the closure function and the same-crate functions it calls by a statically resolved path (nested `rec`, helpers)
+    inl = []
+    for n in A.closure_T.walk():
+        if "inl" in n and n["inl"]["fn"] not in inl and n["inl"]["fn"] != A.closure.path:
+            inl.append(n["inl"]["fn"])
+    A.closure_scope = [A.closure] + [P.fns[p] for p in inl]
+    _ANCHORS[id(P)] = A
+    return A
 
 
 def r12a(P, R):
@@ -126,28 +221,76 @@ def key_calls(fn):
     return out
 
 
+def _not_printable(g):
+    """what is inlined into a JsonPrintable impl: helper functions, not the impls of nested nodes (those have their own table)"""
+    return not (g.impl_trait and (g.impl_trait == TRAIT or g.impl_trait.endswith("::JsonPrintable")))
+
+
+UNKNOWN_KINDS = []
+
+
 def kind_tables(P, R):
-    """-> list of (fn, kind, {key: [value arg nodes]}, block node) read from the JsonPrintable impls"""
+    """-> list of (fn, kind, {key: [value arg nodes]}, block node) read from the JsonPrintable impls, each with the helper
+    functions it calls inlined: a key (or the kind itself) written by a helper counts for the impl that calls the helper"""
     impls = P.trait_impls(TRAIT, "print_json")
-    helpers = {f.path: f for f in P.fns.values() if JSON_MOD in f.path and not f.impl_trait}
     out = []
-    for fn in impls:
+    del UNKNOWN_KINDS[:]
+    for fn0 in impls:
+        fn = inlined(P, fn0, pred=_not_printable)
         acc = fn.nodes()
+        inl_ids = set()
+        for n, _ in acc:
+            if "inl" in n:
+                inl_ids.update(id(x) for x in subnodes(n["inl"]["body"]))
         kc = key_calls(fn)
         kind_calls = [(i, n) for i, n, key in kc if key == "kind"]
         if not kind_calls:
             continue
+        pv = Prov(fn)
 
         def owner_block(i):
+            # nearest enclosing block of the impl itself (a block of an inlined helper belongs to the block of its call site)
             p = acc[i][1]
             while p >= 0:
-                if acc[p][0].get("k") == "Block":
+                if acc[p][0].get("k") == "Block" and id(acc[p][0]) not in inl_ids:
                     return p
                 p = acc[p][1]
             return -1
+        def literal_at(i, e):
+            """literal value of expression `e` occurring at node i; a parameter of an inlined helper is looked up in the
+            arguments of the call it was inlined at (each copy of the helper has its own call site)"""
+            v = lit_value(e)
+            while v is None:
+                e = strip(e)
+                while e is not None and e.get("k") in ("AddrOf", "Cast", "Type"):
+                    e = strip(e.get("e"))
+                if e is None or e.get("k") != "Path" or "local" not in e:
+                    return None
+                p, site, pos = acc[i][1], None, None
+                while p >= 0 and site is None:
+                    c = acc[p][0]
+                    if "inl" in c:
+                        pos = [k for k, pp in enumerate(c["inl"]["params"]) if pp.get("k") == "Binding" and pp.get("local") == e["local"]]
+                        if pos:
+                            site = p
+                            break
+                    p = acc[p][1]
+                if site is None:
+                    return None
+                c = acc[site][0]
+                args = ([c["recv"]] if c.get("k") == "MethodCall" else []) + c["args"]
+                if pos[0] >= len(args):
+                    return None
+                i, e = site, args[pos[0]]
+                v = lit_value(e)
+            return v
         kind_blocks = {}
         for i, n in kind_calls:
-            kind = lit_value(n["args"][1]) if len(n["args"]) > 1 else None
+            kind = literal_at(i, n["args"][1]) if len(n["args"]) > 1 else None
+            if kind is None:
+                UNKNOWN_KINDS.append(fn.path)
+                R.undecided("R12-b", "kind@%s" % short(fn.path), "%s writes a `kind` that is not a literal; its table is not decided" % fn.path, loc=fn.loc())
+                continue
             kind_blocks[owner_block(i)] = (kind, n)
 
         def owning_kind_block(i):
@@ -164,15 +307,6 @@ def kind_tables(P, R):
             b = owning_kind_block(i)
             if b in tables:
                 tables[b].setdefault(key, []).append(n)
-        # helper functions called from this impl contribute their keys to the enclosing kind block
-        for i, (n, _) in enumerate(acc):
-            if n.get("k") == "Call":
-                c = call_name(n)
-                if c in helpers:
-                    b = owning_kind_block(i)
-                    for _, hn, key in key_calls(helpers[c]):
-                        if b in tables:
-                            tables[b].setdefault(key, []).append(n)
         for b, (kind, kn) in kind_blocks.items():
             out.append((fn, kind, tables[b], acc[b][0]))
     return out
@@ -186,7 +320,10 @@ def r12b(P, R):
     R.count("json_kinds", len(seen))
     for kind, (req, opt) in sorted(GRAPHQL_JS.items()):
         if kind not in seen:
-            R.violated("R12-b", "kind:" + kind, "no JsonPrintable impl emits graphql-js kind `%s`" % kind)
+            if UNKNOWN_KINDS:
+                R.undecided("R12-b", "kind:" + kind, "no impl is seen to emit kind `%s`, but %s writes a kind that could not be read" % (kind, sorted(set(UNKNOWN_KINDS))))
+            else:
+                R.violated("R12-b", "kind:" + kind, "no JsonPrintable impl (with the helpers it calls) emits graphql-js kind `%s`" % kind)
             continue
         for fn, keys in seen[kind]:
             ks = set(keys)
@@ -216,8 +353,6 @@ def r12b(P, R):
             atoms = set()
             for node in nodes:
                 atoms |= pv.atoms(node)
-                # values written through a sub-writer created by this call: collect uses of the
-                # writer binding -> conservatively the statement's enclosing block
             ok = has_field(atoms, "nitrogql_ast::" + src[0], src[1])
             if not ok:
                 # array/object writers are filled by later statements: fall back to the kind block
@@ -244,112 +379,203 @@ def r12b(P, R):
                 R.check("R12-b", "child-direct:%s" % short(f.path), not through, "nested nodes are printed unchanged",
                         "%s prints a nested node obtained through %s instead of the AST child itself: the emitted document differs from the "
                         "source (e.g. list / non-null wrappers of a variable type are lost)" % (f.path, [short(t) for t in through]), loc=f.loc())
-    R.floor("R12-b", "nested print_json sites", sites, 25)
+    # the control count is taken per impl with its helpers inlined, so that sharing a loop between impls does not lower it
+    per_impl = sum(1 for fn0 in P.trait_impls(TRAIT, "print_json") for c in inlined(P, fn0, pred=_not_printable).walk()
+                   if c.get("k") == "MethodCall" and c.get("method") == "print_json")
+    R.floor("R12-b", "nested print_json sites", per_impl if sites else 0, NESTED_SITES_FLOOR)
+
+
+# ------------------------------------------------------------------------------------------------------ closure traversal
+PUSHES = ("push", "push_back", "push_front", "extend", "append", "insert")
+MEMBERSHIP = ("contains", "insert", "contains_key", "replace", "any", "all", "position", "rposition", "find", "binary_search", "get")   # incl. `iter().any(|n| n == key)`
+EXHAUST = ("pop", "pop_front", "pop_back", "next", "next_back", "last", "last_mut", "first", "first_mut", "is_empty", "len", "peek", "peek_mut",
+           "front", "back", "front_mut", "back_mut")
+
+
+def _ast_fields(atoms):
+    return {(x[1].split("::")[-1], x[2]) for x in atoms if x[0] == "field" and (x[1] or "").startswith("nitrogql_ast::")}
 
 
 def r12c(P, R):
-    """closure traversal of fragment_names_in_selection_set::rec"""
-    rec = P.fn("utils::fragment_names_in_selection_set::rec")
-    # all three Selection variants matched explicitly, no wildcard arm
-    from facts import matches_on, arm_variants
-    variants, wildcard = set(), False
-    ms = matches_on(rec, "selection_set::Selection")
-    for m in ms:
-        v, w = arm_variants(m)
-        variants |= v
-        wildcard = wildcard or w
-    R.check("R12-c", "variants", variants == {"Field", "FragmentSpread", "InlineFragment"} and not wildcard,
-            "all Selection variants handled explicitly",
-            "fragment closure does not handle every Selection variant explicitly: %s wildcard=%s" % (sorted(variants), wildcard),
-            loc=rec.loc())
-    pv = Prov(rec)
-    rec_calls = [n for n in rec.walk() if n.get("k") == "Call" and call_name(n) == rec.path]
+    """closure traversal of the fragment-closure function, whatever carries it (recursion, or a loop over an explicit work list)"""
+    A = anchors(P)
+    C, T, scope = A.closure, A.closure_T, A.closure_scope
+    loc = C.loc()
+    pv = Prov(T)
+    # every Selection variant is matched somewhere in the traversal (match arm, if-let, let-else ...)
+    need_v = set(P.adt("selection_set::Selection").variant_names())
+    got_v = set()
+    for f in scope:
+        got_v |= pattern_variants(list(f.walk()), "selection_set::Selection")
+    R.check("R12-c", "variants", need_v <= got_v, "all Selection variants handled explicitly",
+            "fragment closure never matches Selection variant(s) %s: selections of that kind contribute nothing" % sorted(need_v - got_v), loc=loc)
+    # descent: the nested selection sets flow into a recursive call or onto the work list
+    paths = {f.path for f in scope}
+    sinks = []
+    for n in T.walk():
+        if n.get("k") in ("Call", "MethodCall") and "inl" not in n and call_name(n) in paths:
+            sinks.extend(a for a in ([n["recv"]] if n.get("k") == "MethodCall" else []) + n["args"] if "selection_set::Selection" in norm(a.get("t") or ""))
+        elif n.get("k") == "MethodCall" and n["method"] in PUSHES and "selection_set::Selection" in norm(n.get("recv_ty") or ""):
+            sinks.extend(n["args"])
     fields = set()
-    for c in rec_calls:
-        a = pv.atoms(c["args"][0])
-        for x in a:
-            if x[0] == "field":
-                fields.add((x[1].split("::")[-1], x[2]))
+    for a in sinks:
+        fields |= _ast_fields(pv.atoms(a))
     need = {("Field", "selection_set"), ("InlineFragment", "selection_set"), ("FragmentDefinition", "selection_set")}
-    R.check("R12-c", "descent", need <= fields,
-            "recursion descends into Field, InlineFragment and the spread fragment's selection sets",
-            "fragment closure does not descend into %s" % sorted(need - fields), loc=rec.loc(),
-            detail=sorted(fields))
-    R.floor("R12-c", "recursive descents", len(rec_calls), 3)
-    # de-duplication: a `contains` check on `names` and the push use the same key
-    contains = [n for n in rec.walk() if n.get("k") == "MethodCall" and n.get("method") == "contains"]
-    pushes = [n for n in rec.walk() if n.get("k") == "MethodCall" and n.get("method") == "push"]
-    ok = False
-    if contains and pushes:
-        ca = {x for x in pv.atoms(contains[0]["args"][0]) if x[0] == "field"}
-        pa = {x for x in pv.atoms(pushes[0]["args"][0]) if x[0] == "field"}
-        ok = ("field", "nitrogql_ast::selection_set::FragmentSpread", "fragment_name") in ca and ca == pa
-    R.check("R12-c", "dedup", ok and len(pushes) == 1,
-            "names.contains(spread name) guards the single push of the same key",
-            "fragment names are not de-duplicated by a contains-check on the pushed key", loc=rec.loc())
-    # MIR: the contains-call dominates the push
-    from mirq import MirQ
-    mq = MirQ(P.mir[rec.path])
-    cb = mq.calls_to(lambda p: p.endswith("contains"))
-    pb = mq.calls_to(lambda p: p.endswith("::push"))
-    R.check("R12-c", "dedup-dom", bool(cb) and bool(pb) and all(mq.dominates(cb[0], b) for b in pb),
-            "contains() dominates push() in MIR", "push of a fragment name is not dominated by the contains check",
-            loc=rec.loc())
+    read = set()
+    for f in scope:
+        read |= {((a or "").split("::")[-1], fl) for a, fl in field_reads(f)}
+    unread = sorted(need - fields - read)
+    unflowing = sorted((need - fields) & read)
+    if not sinks:
+        R.undecided("R12-c", "descent", "neither a recursive call nor a work-list push carrying selections found in %s" % C.path, loc=loc)
+    elif unread:
+        R.violated("R12-c", "descent", "fragment closure does not descend into %s: the field is read nowhere in the traversal" % unread, loc=loc, detail=sorted(fields))
+    elif unflowing:
+        R.undecided("R12-c", "descent", "%s is read by the traversal but does not flow into a recognised descent (recursive call / work-list push)" % unflowing, loc=loc)
+    else:
+        R.holds("R12-c", "descent", "the traversal descends into Field, InlineFragment and the spread fragment's selection sets", loc=loc)
+    # de-duplication: every push of a spread name onto a collection of names is dominated by a membership test on the same key
+    SPREAD = ("field", "nitrogql_ast::selection_set::FragmentSpread", "fragment_name")
+    found = 0
+    for f in scope:
+        fp = Prov(f)
+        pushes = [n for n in f.walk() if n.get("k") == "MethodCall" and n["method"] in PUSHES and "str" in norm(n.get("recv_ty") or "")
+                  and n["args"] and SPREAD in fp.atoms(n["args"][-1])]
+        if not pushes:
+            continue
+        conds = []
+        for n in f.walk():
+            if n.get("k") == "If":
+                conds.append(n["cond"])
+            elif n.get("k") == "Match" and n.get("src") == "Normal":
+                conds.append(n["scrut"])
+            elif n.get("k") == "Let" and "els" in n:
+                conds.append(n.get("init"))
+        tests = [x for c in conds if c is not None for x in subnodes(c) if x.get("k") == "MethodCall" and x["method"] in MEMBERSHIP and x["args"]
+                 and "str" in norm(x.get("recv_ty") or "") and SPREAD in fp.atoms(x["args"][0])]
+        mq = MirQ(P.mir[f.path]) if f.path in P.mir else None
+        for p in pushes:
+            found += 1
+            if "Set<" in norm(p.get("recv_ty") or ""):
+                R.holds("R12-c", "dedup", "names are collected in a set", loc=f.loc())
+                continue
+            mine = [t for t in tests if t is not p]
+            R.check("R12-c", "dedup", bool(mine), "a membership test on the spread name guards the push of the same key",
+                    "fragment names are not de-duplicated by a membership test on the pushed key: %s pushes the spread name with no "
+                    "contains/insert test on it in any condition" % f.path, loc=f.loc())
+            if mine and mq is not None:
+                tb, pb = mir_blocks(mq, mine), mir_blocks(mq, [p])
+                if not tb or not pb:
+                    R.undecided("R12-c", "dedup-dom", "the membership test / the push could not be located in the MIR of %s" % f.path, loc=f.loc())
+                else:
+                    R.check("R12-c", "dedup-dom", all(any(mq.dominates(t, b) for t in tb) for b in pb),
+                            "the membership test dominates the push in MIR", "push of a fragment name is not dominated by the membership test", loc=f.loc())
+    if not found:
+        R.undecided("R12-c", "dedup", "no push of a spread's name onto a collection of names found in %s (or its helpers)" % C.path, loc=loc)
 
 
 def r12d(P, R):
-    """single source: runtime documents are built only through print_*_runtime"""
-    op_rt = P.fn("operation_js_printer::printers::print_operation_runtime")
-    fr_rt = P.fn("operation_js_printer::printers::print_fragment_runtime")
-    ptjs = P.fn("json_printer::print_to_json_string")
-    callers = [c for c in P.callers_of(ptjs.path) if "::tests::" not in c]
-    R.check("R12-d", "json-callers", set(callers) == {op_rt.path, fr_rt.path},
+    """single source: runtime documents are built only through the two runtime printers"""
+    A = anchors(P)
+    op_rt, fr_rt, C = A.op_rt, A.fr_rt, A.closure
+    R.check("R12-d", "json-callers", not A.others,
             "print_to_json_string is called only by the two runtime printers",
-            "print_to_json_string has other callers: %s" % callers)
+            "print_to_json_string has other callers than the runtime printers %s / %s: %s" % (short(op_rt.path), short(fr_rt.path), A.others))
     visitors = P.trait_impls("operation_base_printer::visitor::OperationPrinterVisitor")
-    for m, rt in (("print_operation_definition", op_rt), ("print_fragment_definition", fr_rt)):
-        for v in [f for f in visitors if f.name == m]:
+    for role, adt, rt in (("print_operation_definition", OPDEF, op_rt), ("print_fragment_definition", FRDEF, fr_rt)):
+        vs = [f for f in visitors if f.name == role]
+        if not vs:
+            R.undecided("R12-d", "visitor:" + role, "no OperationPrinterVisitor impl has a method `%s` (renamed?); which visitor method prints the "
+                        "runtime document is not decided" % role)
+        for v in vs:
             reach = P.reachable([v])
             is_js = "operation_js_printer" in v.path
             if is_js:
-                R.check("R12-d", "js:" + m, rt.path in reach, "JS visitor prints the runtime document via %s" % rt.name,
+                R.check("R12-d", "js:" + role, rt.path in reach, "JS visitor prints the runtime document via %s" % rt.name,
                         "JS visitor %s does not reach %s" % (v.path, rt.path), loc=v.loc())
             else:
-                R.check("R12-d", "ts:" + m, rt.path in reach, "TS visitor prints runtime values via %s" % rt.name,
+                R.check("R12-d", "ts:" + role, rt.path in reach, "TS visitor prints runtime values via %s" % rt.name,
                         "TS visitor %s does not reach %s (print_values path)" % (v.path, rt.path), loc=v.loc())
-    # document assembly: [X] ++ closure, X first; closure from fragment_names_in_selection_set of X's selection set
-    for rt, adt in ((op_rt, "operation::OperationDefinition"), (fr_rt, "operation::FragmentDefinition")):
+    # document assembly: [X] ++ closure, X first; closure from the closure function applied to X's selection set
+    si = _param_of(C, SELSET)
+    for role, rt, adt, allowed in (("operation", op_rt, OPDEF, {"selection_set"}), ("fragment", fr_rt, FRDEF, {"selection_set", "name"})):
         pv = Prov(rt)
-        fcalls = [n for n in rt.walk() if n.get("k") == "Call" and (call_name(n) or "").endswith("fragment_names_in_selection_set")]
-        ok = bool(fcalls) and has_field(pv.atoms(fcalls[0]["args"][0]), "nitrogql_ast::" + adt, "selection_set")
+        acc = rt.nodes()
+        me = pv.params.get(rt.params[_param_of(rt, adt)].get("local"))
+        fcalls = [i for i, (n, _) in enumerate(acc) if n.get("k") == "Call" and call_name(n) == C.path]
+        if not fcalls:
+            R.undecided("R12-d", "closure-root:" + rt.name, "%s does not call %s directly" % (rt.path, C.path), loc=rt.loc())
+            continue
+        call = acc[fcalls[0]][0]
+        ok = has_field(pv.atoms(call["args"][si]), adt, "selection_set")
         R.check("R12-d", "closure-root:" + rt.name, ok, "closure is computed from the definition's own selection set",
                 "%s does not compute the fragment closure from its definition's selection_set" % rt.path, loc=rt.loc())
-        chains = [n for n in rt.walk() if n.get("k") == "MethodCall" and n.get("method") == "chain"]
-        ok = False
-        if len(chains) == 1:
-            ra = pv.atoms(chains[0]["recv"])
-            aa = pv.atoms(chains[0]["args"][0])
-            first = ("param", "operation") in ra or ("param", "fragment") in ra
-            rest = any(a[0] == "call" and a[1].endswith("fragment_names_in_selection_set") for a in aa)
-            rest_not_first = not any(a[0] == "call" and a[1].endswith("fragment_names_in_selection_set") for a in ra)
-            ok = first and rest and rest_not_first
-        R.check("R12-d", "order:" + rt.name, ok, "document = [definition] ++ closure (definition first)",
-                "%s does not assemble the document as the definition followed by its fragment closure" % rt.path,
-                loc=rt.loc())
-    # fragment runtime filters itself out of the closure
-    filt = [n for n in fr_rt.walk() if n.get("k") == "MethodCall" and n.get("method") == "filter"]
-    pv = Prov(fr_rt)
-    ok = bool(filt) and has_field(pv.atoms(filt[0]["args"][0]), "nitrogql_ast::operation::FragmentDefinition", "name")
-    R.check("R12-d", "self-filter", ok, "the fragment itself is filtered out of its own closure (appears exactly once)",
-            "print_fragment_runtime does not filter the fragment itself from the closure", loc=fr_rt.loc())
+        # nothing else of the definition decides which fragments belong to the document
+        extra = {}
+        for ai, a in enumerate(call["args"]):
+            for x in pv.atoms(a):
+                if x[0] == "field" and x[1] == adt and x[2] not in allowed:
+                    extra.setdefault(ai, set()).add(x[2])
+        if not extra:
+            R.holds("R12-d", "closure-inputs:" + rt.name, "the closure depends on nothing of the %s but %s" % (role, sorted(allowed)), loc=rt.loc())
+        else:
+            CT = A.closure_T
+            cpv = Prov(CT)
+            names = {ai: cpv.params.get(CT.params[ai].get("local")) for ai in extra if ai < len(CT.params)}
+            deciding = set()
+            for n in CT.walk():
+                g = n["cond"] if n.get("k") == "If" else (n["scrut"] if n.get("k") == "Match" and n.get("src") == "Normal" else None)
+                if g is not None:
+                    deciding |= {ai for ai, nm in names.items() if nm and ("param", nm) in cpv.atoms(g)}
+            fields = sorted({"%s.%s" % (adt.split("::")[-1], f) for ai in extra for f in extra[ai]})
+            if deciding:
+                R.violated("R12-d", "closure-inputs:" + rt.name,
+                           "%s passes %s into the fragment closure, where it decides a branch of the traversal: which fragments are part of the "
+                           "%s's document depends on more than its selection set (a fragment is left out of / added to the document because of "
+                           "the %s's own %s)" % (rt.path, fields, role, role, sorted({f for ai in deciding for f in extra[ai]})), loc=rt.loc())
+            else:
+                R.undecided("R12-d", "closure-inputs:" + rt.name, "%s passes %s into the fragment closure; its influence is not decided" % (rt.path, fields), loc=rt.loc())
+        # order
+        # `first.chain(rest)` or `list.extend(rest)` (the list being created with `first` in it)
+        is_cl = lambda a: a[0] == "call" and a[1] == C.path
+        chains = [n for n in rt.walk() if n.get("k") == "MethodCall" and n["args"] and (n.get("method") == "chain" or (
+            n.get("method") in ("extend", "append", "extend_from_slice") and any(is_cl(a) for a in pv.atoms(n["args"][0]))))]
+        if len(chains) != 1:
+            R.undecided("R12-d", "order:" + rt.name, "how %s assembles the list of definitions is not recognised (no single `chain`/`extend`)" % rt.path, loc=rt.loc())
+        else:
+            ra, aa = pv.atoms(chains[0]["recv"]), pv.atoms(chains[0]["args"][0])
+            first, rest = ("param", me) in ra, any(is_cl(a) for a in aa)
+            if first and rest and not any(is_cl(a) for a in ra):
+                R.holds("R12-d", "order:" + rt.name, "document = [definition] ++ closure (definition first)", loc=rt.loc())
+            elif any(is_cl(a) for a in ra) and ("param", me) in aa and not first:
+                R.violated("R12-d", "order:" + rt.name, "%s assembles the document as the fragment closure followed by the definition; the "
+                           "definition must come first" % rt.path, loc=rt.loc())
+            else:
+                R.undecided("R12-d", "order:" + rt.name, "the two sides of `chain` in %s are not recognised as definition / closure" % rt.path, loc=rt.loc())
+        # the fragment itself appears exactly once: its own name takes part in computing the rest of the document
+        if role == "fragment":
+            tops = []
+            for i in fcalls:
+                j = i
+                while acc[j][1] >= 0 and acc[acc[j][1]][0].get("k") == "MethodCall" and acc[acc[j][1]][0]["recv"] is acc[j][0]:
+                    j = acc[j][1]
+                tops.append(acc[j][0])
+            ok = any(has_field(pv.atoms(t), FRDEF, "name") for t in tops)
+            if ok:
+                R.holds("R12-d", "self-filter", "the fragment itself is filtered out of its own closure (appears exactly once)", loc=rt.loc())
+            elif has_field(pv.atoms(rt.body), FRDEF, "name"):
+                R.undecided("R12-d", "self-filter", "%s reads the fragment's name, but not in the expression that computes the closure" % rt.path, loc=rt.loc())
+            else:
+                R.violated("R12-d", "self-filter", "%s does not filter the fragment itself from the closure: its own name is read nowhere, so a "
+                           "fragment that (transitively) spreads itself is emitted twice" % rt.path, loc=rt.loc())
 
 
 def r12f(P, R):
     """the runtime printers keep no state between documents"""
+    A = anchors(P)
     holders = global_state_holders(P)
     R.floor("R12-f", "global state holders found in the workspace (detector control)", len(holders), 6)
-    entries = [P.fn(PR + "operation_js_printer::printers::print_operation_runtime"), P.fn(PR + "operation_js_printer::printers::print_fragment_runtime"),
-               P.fn(PR + "json_printer::print_to_json_string")]
+    entries = [A.op_rt, A.fr_rt, A.ptjs]
     scope = [P.fns[p] for p in P.reachable(entries) if not P.fns[p].derived]
     ALLOWED = {"nitrogql_ast::current_file::CURRENT_FILE_OF_POS": "file index stamped into positions while parsing; not read by the runtime printers' output path"}
     uses = global_state_uses(P, scope, holders)
@@ -372,51 +598,88 @@ def r12f(P, R):
 def r12e(P, R):
     """lossless traversal: no early exit from the traversal loops, no filtering/reordering adaptor on AST data"""
     from templates import LOSSY_OR_REORDERING
-    rec = P.fn("utils::fragment_names_in_selection_set::rec")
-    rets = [n for n in rec.walk() if n.get("k") == "Ret"]
-    brks = [n for n in rec.walk() if n.get("k") == "Break" and "desugar" not in (n.get("x") or "")]
-    R.check("R12-e", "closure:no-early-exit", not rets and not brks,
-            "the fragment-closure loop visits every selection (only `continue` skips one)",
-            "fragment_names_in_selection_set::rec leaves the loop over selections early (%d return, %d break): "
-            "later sibling selections are never scanned, so fragments spread only there are missing from the document"
-            % (len(rets), len(brks)), loc=rec.loc())
+    A = anchors(P)
+    C = A.closure
+    # an exit from a traversal loop that depends on what was found (a membership test, a component of the selection) drops the
+    # remaining selections; leaving the loop because the work list is exhausted is how such a loop ends
+    exits = undecided = 0
+    for f in A.closure_scope:
+        acc = f.nodes()
+        for j, (n, _) in enumerate(acc):
+            if n.get("k") not in ("Ret", "Break") or "desugar" in (n.get("x") or ""):
+                continue
+            p, loop = acc[j][1], None
+            while p >= 0 and loop is None:
+                if acc[p][0].get("k") == "Loop":
+                    loop = acc[p][0]
+                elif acc[p][0].get("k") == "Closure":
+                    break
+                p = acc[p][1]
+            if loop is None:
+                continue
+            gs = [g for g in guards_of(f, j, stop=loop) if g["kind"] in ("cond", "pat", "arm")]
+            content = [x for g in gs if g["e"] is not None for x in subnodes(g["e"]) if (x.get("k") == "MethodCall" and x["method"] in MEMBERSHIP)
+                       or (x.get("k") == "Field" and (x.get("adt") or "").startswith("nitrogql_ast::"))]
+            exhaust = bool(gs) and all((strip(g["e"]) or {}).get("k") == "MethodCall" and strip(g["e"])["method"] in EXHAUST for g in gs)
+            if content:
+                exits += 1
+                what = sorted({x["method"] if x.get("k") == "MethodCall" else x["field"] for x in content})
+                R.violated("R12-e", "closure:no-early-exit",
+                           "%s leaves the loop over selections early (`%s` under a condition on %s): later sibling selections are never scanned, "
+                           "so fragments spread only there are missing from the document" % (f.path, "return" if n["k"] == "Ret" else "break", what), loc=f.loc())
+            elif not exhaust:
+                undecided += 1
+                R.undecided("R12-e", "closure:no-early-exit", "%s leaves a loop early under a condition that is not recognised" % f.path, loc=f.loc())
+    if not exits and not undecided:
+        R.holds("R12-e", "closure:no-early-exit", "the fragment-closure loops visit every selection (only `continue` skips one; a loop ends when its work list is exhausted)",
+                loc=C.loc())
     scope = json_scope(P)
     n = 0
     for p in scope:
         f = P.fns[p]
+        pv = None
         for c in f.walk():
             if c.get("k") == "MethodCall":
                 n += 1
                 if c["method"] in LOSSY_OR_REORDERING:
-                    R.violated("R12-e", "lossy:%s:%s" % (short(f.path), c["method"]),
-                               "%s applies `%s` while printing: a component of the source document can be dropped or reordered"
-                               % (f.path, c["method"]), loc=f.loc())
+                    pv = pv or Prov(f)
+                    a = pv.atoms(c["recv"])
+                    if _ast_fields(a) or any(x[0] == "param" for x in a):
+                        R.violated("R12-e", "lossy:%s:%s" % (short(f.path), c["method"]),
+                                   "%s applies `%s` while printing: a component of the source document can be dropped or reordered"
+                                   % (f.path, c["method"]), loc=f.loc())
+                    else:
+                        R.undecided("R12-e", "lossy:%s:%s" % (short(f.path), c["method"]), "%s applies `%s` to a value that does not come from the document"
+                                    % (f.path, c["method"]), loc=f.loc())
         exits = [x for x in f.walk() if x.get("k") == "Break" and "desugar" not in (x.get("x") or "")]
         if exits:
             R.violated("R12-e", "early-break:" + short(f.path), "%s breaks out of a printing loop" % f.path, loc=f.loc())
     R.holds("R12-e", "lossy:none", "%d method calls in %d JSON-printer functions, none filters/reorders" % (n, len(scope)))
-    R.floor("R12-e", "method calls inspected", n, 80)
-    # the runtime printers: exactly one filter (the self-filter of print_fragment_runtime, checked in R12-d)
-    for name, allowed in (("print_operation_runtime", 0), ("print_fragment_runtime", 1)):
-        f = P.fn("operation_js_printer::printers::" + name)
+    R.floor("R12-e", "method calls inspected", n, 50)
+    # the runtime printers: at most the self-filter of the fragment printer (checked in R12-d) narrows the closure
+    for f, allowed in ((A.op_rt, 0), (A.fr_rt, 1)):
         lossy = [c["method"] for c in f.walk() if c.get("k") == "MethodCall" and c["method"] in LOSSY_OR_REORDERING]
-        R.check("R12-e", "runtime-lossy:" + name, len(lossy) == allowed,
+        R.check("R12-e", "runtime-lossy:" + f.name, len(lossy) <= allowed,
                 "no unexpected filtering of the fragment closure",
-                "%s applies %s to the fragment closure (expected %d such adaptor)" % (f.path, lossy, allowed), loc=f.loc())
+                "%s applies %s to the fragment closure (at most %d such adaptor expected)" % (f.path, lossy, allowed), loc=f.loc())
 
 
 RULES = [("R12-e", r12e), ("R12-f", r12f), ("R12-a", r12a), ("R12-b", r12b), ("R12-c", r12c), ("R12-d", r12d)]
 
 EXPLANATION = (
-    "Static structural necessary conditions for C12 decided on the type-checked program: (R12-a) every "
+    "Static structural necessary conditions for C12 decided on the type-checked program, with anchors located by role (the runtime "
+    "printers are the callers of print_to_json_string that receive an OperationDefinition / a FragmentDefinition, the closure "
+    "function is the SelectionSet -> names function both call) and helper functions seen through by virtual inlining: (R12-a) every "
     "content field of every executable AST type is read by some function of the JSON printer reachable "
     "from print_to_json_string (non-interference: an unread field cannot influence the emitted document, "
-    "for all inputs); (R12-b) the kind/key table of every JsonPrintable impl equals graphql-js's AST shape "
-    "and each key is computed from the AST field that carries it; (R12-c) the fragment closure matches all "
-    "Selection variants, descends into all three nested selection sets and de-duplicates by a dominating "
-    "contains-check; (R12-d) runtime documents are assembled only in print_operation_runtime/"
-    "print_fragment_runtime as [definition] ++ closure and both the TS and JS visitor use them. "
-    "Not decided: equality of abstract documents for all inputs.")
+    "for all inputs); (R12-b) the kind/key table of every JsonPrintable impl (with the helpers it calls) equals graphql-js's AST "
+    "shape and each key is computed from the AST field that carries it; nested nodes are printed unchanged; (R12-c) the fragment "
+    "closure matches all Selection variants, lets all three nested selection sets flow into its recursion or work list, and "
+    "de-duplicates by a membership test that dominates the push of a name; (R12-d) runtime documents are assembled only by the two "
+    "runtime printers as [definition] ++ closure, the closure is computed from the definition's selection set and from nothing else "
+    "of an operation, a fragment's own name takes part in its closure (self-filter), and both the TS and JS visitor use them; "
+    "(R12-e) no traversal loop is left early under a condition on what was found, no filtering/reordering adaptor touches document "
+    "data; (R12-f) no global state between documents. Not decided: equality of abstract documents for all inputs.")
 ASSUMPTIONS = ["json_writer crate escapes strings and nests objects correctly (third-party, trusted)",
                "rustc's type checker and the HIR/MIR emitted by nightly 1.97 (facts are read from them)",
                "graphql-js AST shape table transcribed by hand from language/ast.d.ts (v16)"]
